@@ -40,6 +40,11 @@ chk("C09", "exploration", T + "from the first rollback on, every read/hash/versi
 chk("C15", "exploration", T + "normal-form change sets computed from the versioned-map model vs TraverseStateChanges; SaveChangeSet and full replay into an empty tree",
     "Histories with repeated writes of one key per version, no-op and empty versions, pruning; every extracted change set whose predecessor is retained is compared with R1's normal form; replay of all change sets reproduces contents (and hashes for normal-form runs). No fault or schedule dimension.", N, "DESIGN.md §5 C15")
 
+chk("C05", "fault_enumeration", "deterministic simulation with crash injection: fault-free run records the physical write log of the simulated disk; every boundary between two physical writes of every multi-write step is enumerated, the store is reopened on that image and compared with the model before/after the step; retry and continuation must be canonical",
+    "Cut positions are enumerated exhaustively for each explored history (commit, deletion of old versions, rollback, import commit, fast-index build/rebuild); histories, flush thresholds (150..default) and the reopening configuration are sampled. Old-or-new is decided on the whole observable state (version APIs, all reads of all retained versions through walk/fast path/iteration, hashes).", "Storage model of the statement: atomic, totally ordered batch writes (no torn batches, reordering or lost un-synced writes). " + N, "DESIGN.md §5 C05")
+chk("C18", "exploration", "deterministic simulation of storage programs: one seeded program of point ops, batches (incl. reuse after write/close), forward/reverse iterators over all bound shapes and nested prefix views executed on MemDB, GoLevelDB (real files, clean close/reopen), PrefixDB stacks and a sorted-map model; results and full root contents compared after every step",
+    "Seeded sequential programs over a byte alphabet containing 0x00 and 0xFF with nested prefixes incl. 0xFF runs; every result is compared with a sorted-map model and across backends; prefix isolation is checked on the shared parent store after every step.", "Sequential programs plus clean restart only: batch atomicity under concurrent readers or power loss is not decided. GoLevelDB itself (third party) is trusted. The sorted-map model is the specification.", "DESIGN.md §5 C18")
+
 NOT_YET = {
 }
 
@@ -67,6 +72,10 @@ def main():
         "engines": [
             {"name": "drv", "path": "drv/", "serves_properties": [p for p in props if p in CHECKS and p not in ("C18", "C19", "C20")],
              "kind_free_text": "v1 driver: explicit replayable plans executed on the real MutableTree over the simulated disk (SimDB) in lock-step with reference models R1/R2/R3; crash-cut and storage-fault enumeration; cooperative scheduler for concurrent runs"},
+            {"name": "drvdb", "path": "drvdb/", "serves_properties": [p for p in props if p in CHECKS and p == "C18"],
+             "kind_free_text": "storage-backend driver: seeded programs on MemDB/GoLevelDB/PrefixDB stacks vs a sorted-map model"},
+            {"name": "drv2", "path": "drv2/", "serves_properties": [p for p in props if p in CHECKS and p in ("C19", "C20")],
+             "kind_free_text": "v2 driver: normal-form histories on the SQLite-backed v2 tree vs v1 and the reference models; simulator-owned prune progress"},
         ],
         "checks": [],
         "notes": "All checks: bin/check <id> <quick|thorough>; exit 0 held, 1 VIOLATION (replay file under replays/), 2 infrastructure. Known findings: KNOWN_FINDINGS.txt. Replay: bin/check replay <file>.",
@@ -81,7 +90,7 @@ def main():
                 "thorough_cmd": f"bin/check {p} thorough",
                 "evidence_file": f"evidence/{p}.json",
                 "replay_cmd_template": "bin/check replay {path}",
-                "engine": "drv",
+                "engine": "drvdb" if p == "C18" else ("drv2" if p in ("C19", "C20") else "drv"),
                 "level_claimed": {"category": c["level"], "text": c["text"], "design_ref": c["ref"]},
                 "level_note": c["note"],
                 "technique": c["technique"],
